@@ -30,6 +30,11 @@ def run(ctx, L, tier):
     M.dynamic_predicates(ctx, L)
     from . import c20
     c20.shared_state(ctx, L)        # no state that survives from one compiled file / call to the next (module, class, closure, default argument)
+    from . import shared_gen as _G
+    _G.generators_read_only(ctx, L)
+    from . import c14 as _c14
+    _c14.ladders(ctx, L)               # sizes that stay symbolic in the generated C++ are evaluated by the compiler: integer operators only
+    _c14.precedence(ctx, L)
     return sorted(set(o.rule for o in L.obligations))
 
 
